@@ -19,20 +19,20 @@ W == [s \in AllScripts |->
           [] s = "groups" -> {"feedback", "tooldata"}
           [] s = "tifa_types" -> {"feedback", "tooldata", "builtin_modules"}
           [] OTHER -> {"feedback", "tooldata"}]
-AllSubs == {"ok", "crash", "mathmut", "syntax", "unused", "parts", "mathy", "attrassign", "attrlit", "methodcall", "pltassign", "pltcall", "uselen", "realmut", "modset", "modget"}
+AllSubs == {"ok", "crash", "mathmut", "syntax", "unused", "parts", "mathy", "attrassign", "attrlit", "methodcall", "pltassign", "pltcall", "uselen", "realmut", "modset", "modsetT", "modget"}
 \* submissions whose analysis writes / reads the method tables of TIFA's value types
 \* ... and submissions that write / read TIFA's types of the builtin MODULES (attribute assignment on an imported module)
 SW == [s \in AllSubs |-> IF s \in {"attrassign", "attrlit"} THEN {"type_tables"}
                           ELSE IF s \in {"pltassign", "mathmut"} THEN {"builtin_modules"}
                           \* ... and a submission that, when EXECUTED, assigns to an attribute of the real standard module
                           \* it imported (the sandbox hands out the interpreter's own module objects)
-                          ELSE IF s = "realmut" THEN {"real_modules"}
+                          ELSE IF s \in {"realmut", "modsetT"} THEN {"real_modules"}      \* (modsetT: through TIFA's own import of the module)
                           \* ... and one that imports a standard module nothing has loaded yet and changes its module-level state
                           ELSE IF s = "modset" THEN {"fresh_modules"} ELSE {}]
 SR == [s \in AllSubs |-> IF s = "methodcall" THEN {"type_tables"}
                           ELSE IF s = "pltcall" THEN {"builtin_modules"}
                           ELSE IF s = "mathy" THEN {"builtin_modules", "real_modules"}
-                          ELSE IF s = "modget" THEN {"fresh_modules"} ELSE {}]
+                          ELSE IF s = "modget" THEN {"fresh_modules", "real_modules"} ELSE {}]
 \* every grading resolves and renders feedback, so it reads everything that influences the result
 R == [s \in AllScripts |-> Slots \ {"class_hooks"}]
 \* Report.clear(): feedback lists, suppressions, hiddens, tool data (hence the sandbox instance with its mocks and
